@@ -100,6 +100,15 @@ def mutants_of(rel):
         m = re.search(r' \+= ', ls)
         if m:
             out.append((rel, i, l, l[:m.start()] + ' -= ' + l[m.end():], '+= -> -='))
+        # inside quote! templates: an interpolation dropped, pointer / reference kinds swapped, `pub` dropped
+        if re.search(r'#[a-z_]+', ls) and not st.startswith('#['):
+            for m in re.finditer(r'#[a-z_]+\b', ls):
+                out.append((rel, i, l, l[:m.start()] + l[m.end():], 'template: dropped %s' % m.group(0)))
+        for a_, b_ in ((r'\*const ', '*mut '), (r'\*mut ', '*const '), (r'& mut ', '& '), (r'&mut self', '&self'), (r'\bpub ', '')):
+            for m in re.finditer(a_, ls):
+                if 'fn ' in ls and a_ == r'\bpub ' and 'quote' not in ls and '#' not in ls:
+                    continue
+                out.append((rel, i, l, l[:m.start()] + b_ + l[m.end():], 'template: %s -> %s' % (m.group(0).strip(), b_.strip() or '(dropped)')))
         # Some(x) -> None in a return position
         m = re.match(r'^(\s*)(return )?Some\((.*)\)(;?)$', l)
         if m and 'Ok(' not in l:
